@@ -160,7 +160,7 @@ func implementsUnpacker(t reflect.Type) bool {
 
 func unpackWith(opts *options, v reflect.Value, with value) Error {
 	// short circuit nil values
-	if isNil(with) {
+	if isNilRef(opts, with) {
 		return nil
 	}
 
